@@ -166,6 +166,7 @@ func runCheck(args []string) int {
 	for _, tc := range cfg.Tables {
 		e.checkTable(tc)
 	}
+	e.proveIndLemmas()
 	timeout := 4000
 	if cfg.QuickMs > 0 {
 		timeout = cfg.QuickMs
@@ -534,4 +535,32 @@ func (e *Engine) proveLemma(name string) {
 		return
 	}
 	e.unsup["lemma "+name] = append(e.unsup["lemma "+name], "lemma not found")
+}
+
+// proveIndLemmas emits base and step obligations for every induction lemma of the loaded
+// contract files (the lemma itself is excluded from its own proof).
+func (e *Engine) proveIndLemmas() {
+	for _, il := range e.cs.IndLemmas {
+		fx := &FuncExec{eng: e, name: "lemma:" + il.Name, modKeys: map[string]bool{}, havocGens: map[string]bool{}}
+		st := &State{fx: fx, declSet: map[string]bool{}, pcSet: map[string]bool{}, ghostV: map[string]Value{}, env: map[ssa.Value]Value{}}
+		st.heap = &HeapView{m: map[string]string{}, base: "0"}
+		st.old = st.heap
+		// declare the variables as constants
+		vt := parseSx(il.Vars)
+		for _, kv := range vt.kids {
+			if len(kv.kids) == 2 {
+				st.declare(kv.kids[0].String(), kv.kids[1].String())
+			}
+		}
+		claim := parseSx(il.Claim)
+		base := claim.substAtom(il.Var, parseSx(il.From)).String()
+		next := claim.substAtom(il.Var, parseSx("(+ "+il.Var+" 1)")).String()
+		e.funcsDone = append(e.funcsDone, fx.name)
+		e.oblige(fx, st, "lemma", "base", base, "induction base of "+il.Name, 0)
+		st2 := st.clone()
+		st2.assume(fmt.Sprintf("(>= %s %s)", il.Var, il.From))
+		st2.assume(il.Claim)
+		e.oblige(fx, st2, "lemma", "step", next, "induction step of "+il.Name, 0)
+		e.lemmaSelf[fx.name] = fmt.Sprintf("(assert (forall %s (! (=> (>= %s %s) %s) :pattern %s)))", il.Vars, il.Var, il.From, il.Claim, il.Pattern)
+	}
 }
